@@ -295,7 +295,7 @@ def path_points(ctx, crate, clause="path-points"):
             args = [param(x) for x in pn]
             args[pn.index("from_vertex")] = ('ref_t', ('tmp', 'from')); args[pn.index("to_vertex")] = ('ref_t', ('tmp', 'to'))
             e.run_body(b, args, st, fk=((fn, -1),), stack=(fn,)); ctx.functions |= e.visited_fns
-            un = [ev for ev in e.events.values() if ev.callee == "unproj" and len(ev.site) == 2]
+            un = [ev for ev in e.events.values() if ev.callee == "unproj"]        # in the loop body, or in the closure of an iterator adaptor
             ens = {ev.ret: ev for ev in e.events.values() if ev.callee == "ensures_x_is_positive"}
             if len(un) != 1 or un[0].args[0] not in ens:
                 bad.append((fnm, tnm, "expected one unproj(ensures_x_is_positive(x), y)")); continue
